@@ -1,4 +1,6 @@
-//! Shared pieces of the verification harness: PRNG, line-protocol helpers.
+//! Shared pieces of the verification harness: PRNG, line-protocol helpers, the L2 runtime and corpus.
+
+pub mod l2;
 
 /// splitmix64 — every random choice of every generator derives from one of these, seeded from
 /// `VERIF_SEED`, so a disagreement replays exactly.
